@@ -1101,6 +1101,51 @@ def logic_input_parser(x, y):""")], expect='C02.memo')
 add('c02-benign-logic-parser-typed-memo', 'C02', 'benign', [(OPS, """def logic_input_parser(x, y):""", """@functools.lru_cache(None, typed=True)
 def logic_input_parser(x, y):""")])
 
+# ---------------------------------------------------------------- from seeded changes (simplified)
+add('c06-contains-compares-rows-as-text', 'C06', 'break', [(RANGES, """def _split(base, rng, intersect=None, format_range=range2parts):""", """def _contains(base, rng):
+    return base['n1'] <= rng['n1'] and rng['n2'] <= base['n2'] and \\
+        base['r1'] <= rng['r1'] and rng['r2'] <= base['r2']
+
+
+def _split(base, rng, intersect=None, format_range=range2parts):""")], expect='C06.inclusive')
+add('c06-benign-contains-int-rows', 'C06', 'benign', [(RANGES, """def _split(base, rng, intersect=None, format_range=range2parts):""", """def _contains(base, rng):
+    return base['n1'] <= rng['n1'] and rng['n2'] <= base['n2'] and \\
+        int(base['r1']) <= int(rng['r1']) and int(rng['r2']) <= int(base['r2'])
+
+
+def _split(base, rng, intersect=None, format_range=range2parts):""")])
+add('c15-references-snapshot-before-add-book', 'C15', 'break', [(EXCEL, """            done.add(n_id)
+            if n_id in self.references:""", """            done.add(n_id)
+            references = self.references
+            if n_id in references:"""), (EXCEL, """                continue
+            references = self.references
+            formula_ranges = self.formula_ranges(context)""", """                continue
+            formula_ranges = self.formula_ranges(context)""")], expect='C15.worklist')
+add('c18-paren-guard-only-ranges', 'C18', 'break', [(PAREN, """        if self.has_start and tokens and isinstance(tokens[-1], Operand):
+            raise TokenError""", """        if self.has_start and tokens and isinstance(tokens[-1], Range):
+            raise TokenError"""), (PAREN, """        from .operand import Operand
+""", """        from .operand import Operand, Range
+""")], expect='C18.adjacent')
+add('c18-operand-guard-removed', 'C18', 'break', [(OPERAND, """        if tokens and isinstance(tokens[-1], Operand):
+            raise TokenError()
+        super(Operand, self).ast(tokens, stack, builder)""", """        super(Operand, self).ast(tokens, stack, builder)""")], expect='C18.adjacent')
+add('c14-function-lookup-strips-namespace', 'C14', 'break', [(FUNCTION, """        return get_functions()[self.name.upper()]""", """        functions, name = get_functions(), self.name.upper()
+        while name not in functions and '.' in name:
+            name = name.partition('.')[2]
+        return functions[name]""")], expect='C14.lookup')
+add('c14-benign-lookup-via-local', 'C14', 'benign', [(FUNCTION, """        return get_functions()[self.name.upper()]""", """        functions, name = get_functions(), self.name.upper()
+        return functions[name]""")])
+add('c20-x2dec-sign-test-strict', 'C20', 'break', [(ENG, """        return (x & ~y) - (y & x)""", """        return x - (y << 1) if x > y else x""")], expect='C20.mask')
+add('c20-benign-x2dec-conditional', 'C20', 'benign', [(ENG, """        return (x & ~y) - (y & x)""", """        return x - (y << 1) if x >= y else x""")])
+add('c13-clock-read-cached-in-module-state', 'C13', 'break', [(DATE, """def xnow():
+    d = datetime.datetime.now()""", """_clock = {}
+
+
+def xnow():
+    if 'now' not in _clock:
+        _clock['now'] = datetime.datetime.now()
+    d = _clock['now']""")], expect='C13.nomemo')
+
 if __name__ == '__main__':
     here = os.path.dirname(os.path.abspath(__file__))
     ids = [v['id'] for v in V]
